@@ -23,8 +23,9 @@ RULE = (
     "caller's arrays, wall list and settings dict must be byte-identical afterwards, and building twice "
     "from the same arrays must give the same equilibrium; (c) RuleBasedStateMachine: generated histories "
     "of circular / tokamak constructions in one interpreter, after which a fixed probe grid must have the "
-    "fingerprint computed in a fresh process; (d) geqdsk + yaml -> hypnotoad-geqdsk -> "
-    "hypnotoad-recreate-inputs -> hypnotoad-geqdsk. non-trivial = a pair/history/round trip that completed; "
+    "fingerprint computed in a fresh process; (d) geqdsk + yaml -> hypnotoad-geqdsk (or the same inputs "
+    "through read_geqdsk + BoutMesh in Python) -> hypnotoad-recreate-inputs -> hypnotoad-geqdsk, option sets "
+    "including explicit None values and explicit nonorthogonal_* values. non-trivial = a pair/history/round trip that completed; "
     "distinct = descriptor / argument / history hash."
 )
 
@@ -314,10 +315,15 @@ def roundtrip(run):
         if draw(st.booleans()):
             o["psinorm_sol"] = 1.12
             o["psi_spacing_separatrix_multiplier"] = 0.6
-        return {"family": "G", "entry": "roundtrip-cli", "eq": eq, "options": o}
+        if draw(st.booleans()):
+            # an explicit None is significant where the default is an expression of other options
+            o["target_all_poloidal_spacing_length"] = draw(st.sampled_from([0.1, 0.3]))
+            o["target_outer_%s_poloidal_spacing_length" % ("upper" if top == "usn" else "lower")] = None
+        entry = draw(st.sampled_from(["roundtrip-cli", "roundtrip-api-cli"]))
+        return {"family": "G", "entry": entry, "eq": eq, "options": o}
 
-    n = 4 if run.tier == "quick" else 40
-    descs = corpus.collect(build(), n, run.seed + 1400, keyfn=lambda d: d["eq"]["topology"])
+    n = 8 if run.tier == "quick" else 48
+    descs = corpus.collect(build(), n, run.seed + 1400, keyfn=lambda d: "%s/%s" % (d["entry"], d["eq"]["topology"]), oversample=12)
     cases = gridlab.run_cases(descs, timeout=900)
     for c in cases:
         run.bump("roundtrip/%s" % c.outcome)
